@@ -135,14 +135,37 @@ func genLabels(r *Rng) *rfc1035label.Labels {
 	return l
 }
 
+// genHWType6: the registered hardware types code may branch on (Ethernet 1,
+// IEEE 802 6, EUI-64 27, InfiniBand 32, ...) far more often than a uniformly
+// drawn 16-bit number would hit them, plus boundary and random values.
+func genHWType6(r *Rng) iana.HWType {
+	if r.Chance(1, 4) {
+		return iana.HWType(r.Intn(65536))
+	}
+	return iana.HWType(r.Pick([]int{1, 1, 6, 27, 27, 32, 0, 15, 20, 24, 37, 255, 256, 65535}))
+}
+
+// genLLAddr6: link-layer addresses of every short length (a helper indexing
+// into an assumed 6- or 8-octet address must meet 0..5 and 7), the usual 6 and
+// 8 (every other 8-octet one an EUI-64 built from an EUI-48: ff fe in the
+// middle), and longer ones.
+func genLLAddr6(r *Rng) []byte {
+	n := r.Pick([]int{0, 1, 2, 3, 4, 5, 6, 6, 6, 7, 8, 8, 8, 9, 16, 20})
+	b := r.Bytes(n)
+	if n >= 5 && r.Chance(1, 2) {
+		b[3], b[4] = 0xff, 0xfe
+	}
+	return b
+}
+
 func genDUID(r *Rng) dhcpv6.DUID {
 	switch r.Intn(6) {
 	case 0:
-		return &dhcpv6.DUIDLLT{HWType: iana.HWType(r.Intn(65536)), Time: uint32(r.U64()), LinkLayerAddr: r.Bytes(r.Pick([]int{0, 6, 6, 8, 20}))}
+		return &dhcpv6.DUIDLLT{HWType: genHWType6(r), Time: uint32(r.U64()), LinkLayerAddr: genLLAddr6(r)}
 	case 1:
 		return &dhcpv6.DUIDEN{EnterpriseNumber: uint32(r.U64()), EnterpriseIdentifier: r.Bytes(r.Range(0, 12))}
 	case 2:
-		return &dhcpv6.DUIDLL{HWType: iana.HWType(r.Intn(65536)), LinkLayerAddr: r.Bytes(r.Pick([]int{0, 6, 6, 8}))}
+		return &dhcpv6.DUIDLL{HWType: genHWType6(r), LinkLayerAddr: genLLAddr6(r)}
 	case 3:
 		d := &dhcpv6.DUIDUUID{}
 		copy(d.UUID[:], r.Bytes(16))
@@ -316,7 +339,7 @@ func genOpt6(r *Rng, code int, depth int, loose bool) dhcpv6.Option {
 	case 62:
 		return &dhcpv6.OptNetworkInterfaceID{Typ: dhcpv6.NetworkInterfaceType(r.Intn(256)), Major: uint8(r.Intn(256)), Minor: uint8(r.Intn(256))}
 	case 79:
-		return dhcpv6.OptClientLinkLayerAddress(iana.HWType(r.Intn(65536)), r.Bytes(r.Pick([]int{0, 6, 8})))
+		return dhcpv6.OptClientLinkLayerAddress(genHWType6(r), genLLAddr6(r))
 	case 87:
 		p := genPkt4(r, true)
 		// keep option values short and addresses in 4-byte form so that the
